@@ -3,7 +3,7 @@
    CompressionMode.opts) is what the hand-written model computes.  A change of a boundary, a comparison or a constant in
    one of those places of the source changes Gen/FrameCode.v and breaks a proof here. *)
 From Coq Require Import List NArith ZArith Bool Lia.
-From WS Require Import Base.Words Gen.Consts Gen.FrameCode Gen.ReadCode Gen.AcceptCode Model.Base64 Model.Mask Model.Frame Model.Proto Model.Handshake Model.Reader Model.NetConn Proofs.ReaderP.
+From WS Require Import Base.Words Gen.Consts Gen.FrameCode Gen.ReadCode Gen.AcceptCode Gen.WriteCode Model.Base64 Model.Writer Model.Mask Model.Frame Model.Proto Model.Handshake Model.Reader Model.NetConn Proofs.ReaderP.
 Import ListNotations.
 
 Local Open Scope N_scope.
@@ -193,4 +193,37 @@ Proof.
     + destruct (Z.eqb_spec (Z.of_nat (length d)) 16) as [E'|E']; [lia|]. reflexivity.
   - destruct (Z.eqb_spec (Z.of_nat (S (S (length l)))) 0) as [E|E]; [lia|].
     destruct (Z.ltb_spec 1 (Z.of_nat (S (S (length l))))) as [E'|E']; [reflexivity|lia].
+Qed.
+
+
+(* ---------------- Gen/WriteCode.v: the decisions of writeFrame ---------------- *)
+
+(* a frame is refused after the Close frame exactly when the source's errCloseSent check says so; otherwise it is written *)
+Theorem write_frame_is_source : forall keys cfg s fin fl opc p,
+  write_frame keys cfg s fin fl opc p =
+  if gen_refused_after_close (w_close_sent s) (Z.of_N opc) then s else write_frame_raw keys cfg s fin fl opc p.
+Proof.
+  intros keys cfg s fin fl opc p. unfold write_frame, gen_refused_after_close.
+  assert (E9 : (opc =? 9)%N = (Z.of_N opc =? 9)%Z).
+  { destruct (N.eqb_spec opc 9); destruct (Z.eqb_spec (Z.of_N opc) 9); try reflexivity; lia. }
+  assert (E10 : (opc =? 10)%N = (Z.of_N opc =? 10)%Z).
+  { destruct (N.eqb_spec opc 10); destruct (Z.eqb_spec (Z.of_N opc) 10); try reflexivity; lia. }
+  rewrite E9, E10. destruct (w_close_sent s), (Z.of_N opc =? 9)%Z, (Z.of_N opc =? 10)%Z; reflexivity.
+Qed.
+
+(* a written frame sets the flag when the source does, carries RSV1 and the MASK bit when the source sets them *)
+Theorem write_frame_raw_is_source : forall keys cfg s fin fl opc p,
+  let s' := write_frame_raw keys cfg s fin fl opc p in
+  w_close_sent s' = w_close_sent s || gen_sets_close_sent (Z.of_N opc) /\
+  exists h, w_out s' = w_out s ++ [(h, p)] /\
+            h_rsv1 h = gen_rsv1 fl (Z.of_N opc) /\ h_masked h = gen_masked (role_eqb (wc_role cfg) Client) /\
+            h_rsv2 h = false /\ h_rsv3 h = false /\ h_fin h = fin /\ h_opc h = opc /\ h_plen h = N.of_nat (length p).
+Proof.
+  intros keys cfg s fin fl opc p. cbv zeta. unfold write_frame_raw. cbn [w_close_sent w_out]. split.
+  - unfold gen_sets_close_sent. f_equal.
+    destruct (N.eqb_spec opc 8); destruct (Z.eqb_spec (Z.of_N opc) 8); try reflexivity; lia.
+  - eexists. split; [reflexivity|]. cbn [h_rsv1 h_masked h_rsv2 h_rsv3 h_fin h_opc h_plen]. repeat split.
+    unfold gen_rsv1, is_data_first. f_equal.
+    destruct (N.eqb_spec opc 1); destruct (Z.eqb_spec (Z.of_N opc) 1); try lia;
+    destruct (N.eqb_spec opc 2); destruct (Z.eqb_spec (Z.of_N opc) 2); try lia; reflexivity.
 Qed.
